@@ -42,6 +42,9 @@ def dec(v):
     if isinstance(v, dict):
         if "__b" in v:
             return bytearray(bytes.fromhex(v["__b"]))
+        if "__o" in v:                    # an OpCode object: {"__o": "OpCode", "name": .., "value": .., "serviceaction": [[name, value], ...]}
+            from pyscsi.pyscsi.scsi_opcode import OpCode
+            return OpCode(v["name"], v["value"], dict((k, x) for k, x in v["serviceaction"]))
         return {k: dec(x) for k, x in v["__d"]}
     if isinstance(v, list):
         return [dec(x) for x in v]
@@ -62,6 +65,9 @@ def cpv(v):
         return "PList [%s]" % "; ".join(cpv(x) for x in v)
     if "__b" in v:
         return "PBytes [%s]" % ";".join(str(b) for b in bytes.fromhex(v["__b"]))
+    if "__o" in v:                        # objects are dictionaries of their attributes carrying the marker key "__obj__" (Model/Py.v, EAttr)
+        sa = "PDict [(\"__obj__\", PStr \"Enum\")%s]" % "".join('; ("%s", PInt %d)' % (k, x) for k, x in v["serviceaction"])
+        return 'PDict [("__obj__", PStr "OpCode"); ("name", PStr "%s"); ("value", PInt %d); ("serviceaction", %s)]' % (v["name"], v["value"], sa)
     return "PDict [%s]" % "; ".join('("%s", %s)' % (k.replace('"', '""'), cpv(x)) for k, x in v["__d"])
 
 
@@ -207,6 +213,35 @@ def gen_cases(seed, tier, summary):
                               build_pre=[de["designator_type"]]))
         n = rng.choice([0, 1, 2, 3, 4, 5, 7, 8, 9, 15, 16, 17, 223, 224])
         cases.append(dict(fn="scsi_cdb_persistentreservein._pad4_len", args=[{"__b": bytes(rng.randrange(1, 256) for _ in range(n)).hex()}], kind="pad4"))
+    # the PERSISTENT RESERVE OUT builder on the dictionaries of the parameter-list generator (all service actions, TransportID kinds,
+    # names across the padding boundaries), also with one key removed / retyped
+    import spec_params
+    SA = [["REGISTER", 0], ["RESERVE", 1], ["RELEASE", 2], ["CLEAR", 3], ["PREEMPT", 4], ["PREEMPT_AND_ABORT", 5],
+          ["REGISTER_AND_IGNORE_EXISTING_KEY", 6], ["REGISTER_AND_MOVE", 7], ["REPLACE_LOST_RESERVATION", 8]]
+    op = {"__o": "OpCode", "name": "PERSISTENT_RESERVE_OUT", "value": 0x5F, "serviceaction": SA}
+
+    def jv(x):
+        if isinstance(x, dict) and set(x.keys()) == {"b"}:
+            return {"__b": bytes(x["b"]).hex()}
+        if isinstance(x, (bytes, bytearray)):
+            return {"__b": bytes(x).hex()}
+        if isinstance(x, dict):
+            return {"__d": [[k, jv(v)] for k, v in x.items()]}
+        if isinstance(x, list):
+            return [jv(v) for v in x]
+        if isinstance(x, str) and not all(32 <= ord(ch) < 127 for ch in x):
+            raise Unrepresentable("non-ascii str")
+        return x
+    for c in spec_params.cases(random.Random(seed ^ 0x9807), 6 if tier == "quick" else 40):
+        if c["cls"] != "PersistentReserveOut":
+            continue
+        try:
+            kw = jv({k: v for k, v in c["kw"].items() if k not in ("scope", "pr_type")})
+        except Unrepresentable:
+            continue
+        q = "scsi_cdb_persistentreserveout.PersistentReserveOut.marshall_dataout"
+        cases.append(dict(fn=q, args=[op, c["sa"], kw], kind="prout-build"))
+        cases.append(dict(fn=q, args=[op, c["sa"], perturb_dict(rng, kw)], kind="prout-build-perturbed"))
     return [c for c in cases if c["fn"] in funcs]
 
 
